@@ -23,19 +23,22 @@ func init() {
 }
 
 type c07call struct {
-	idx      int
-	dest     *net.UDPAddr
-	method   string
-	marker   [20]byte // unique argument value: identifies the call on the wire
-	tries    int
-	call     *core.Call
-	t        string
-	haveT    bool
-	writes   []time.Time
-	expect   string // marker of the datagram that must complete it ("" = time-out)
-	expectAt time.Time
-	decided  bool
-	doneSeen bool
+	idx       int
+	dest      *net.UDPAddr
+	method    string
+	marker    [20]byte // unique argument value: identifies the call on the wire
+	tries     int
+	call      *core.Call
+	t         string
+	haveT     bool
+	writes    []time.Time
+	expect    string // marker of the datagram that must complete it ("" = time-out)
+	expectAt  time.Time
+	decided   bool
+	doneSeen  bool
+	matched   bool // a datagram from its destination with its t was delivered while it was outstanding
+	cancel    context.CancelFunc
+	cancelled bool // its context was cancelled while it was outstanding
 }
 
 type c07dg struct {
@@ -115,7 +118,20 @@ func c07(r *Run) {
 			// the datagram is out but WriteTo has not returned: answer it now, let the write return later
 			r.Probe("reply-before-write-returns")
 			r.FaultHit("parked-write")
-			r.After(time.Duration(1+r.Rng.Intn(1000)), "early-reply", func() { send(c, 0) })
+			if r.Rng.Intn(3) == 0 && c.cancel != nil {
+				// the caller gives up while the write is still inside the socket call; the reply
+				// that then arrives belongs to a query that has already chosen to return
+				r.After(time.Duration(1+r.Rng.Intn(500)), "cancel-parked", func() {
+					if !c.decided {
+						c.cancelled = true
+					}
+					r.FaultHit("cancel-while-write-parked")
+					c.cancel()
+				})
+				r.After(time.Duration(600+r.Rng.Intn(400)), "late-reply", func() { send(c, 0) })
+			} else {
+				r.After(time.Duration(1+r.Rng.Intn(1000)), "early-reply", func() { send(c, 0) })
+			}
 			r.After(time.Duration(2000+r.Rng.Intn(int(delay))), "release-write", func() { r.ReleaseWrite(wr) })
 		}
 		return false
@@ -140,7 +156,7 @@ func c07(r *Run) {
 		for _, c := range calls {
 			// a call whose matching reply has arrived is no longer pending even if it has
 			// not returned yet (its sender may still be inside a socket write)
-			if c.call != nil && !r.CallDone(c.call) && !c.decided {
+			if c.call != nil && !r.CallDone(c.call) && !c.matched {
 				n++
 			}
 		}
@@ -150,11 +166,14 @@ func c07(r *Run) {
 	onDeliver := func(dg c07dg) {
 		delivered = append(delivered, dg)
 		for _, c := range calls {
-			if c.call == nil || c.decided || !c.haveT || r.CallDone(c.call) {
+			if c.call == nil || c.matched || !c.haveT || r.CallDone(c.call) {
 				continue
 			}
 			if dg.src == c.dest.String() && dg.t == c.t {
-				c.decided, c.expect, c.expectAt = true, dg.marker, dg.at
+				c.matched = true // the pending transaction is consumed by this datagram
+				if !c.cancelled {
+					c.decided, c.expect, c.expectAt = true, dg.marker, dg.at
+				}
 				return
 			}
 		}
@@ -256,12 +275,28 @@ func c07(r *Run) {
 			parkFirst[string(c.marker[:])] = true
 		}
 		at := time.Duration(r.Rng.Int63n(int64(span)))
+		cancelAt := time.Duration(-1)
+		if ch.Chance(1, 4, "call.cancel") {
+			cancelAt = time.Duration(r.Rng.Int63n(int64(time.Duration(c.tries+1) * delay)))
+		}
 		r.After(at, "call", func() {
 			r.Logf("start call %d %s to %s tries=%d", c.idx, c.method, c.dest, c.tries)
+			ctx, cancel := context.WithCancel(context.Background())
+			c.cancel = cancel
 			c.call = r.Go(fmt.Sprintf("call%02d", c.idx), func() any {
-				return s.Query(context.Background(), dht.NewAddr(c.dest), c.method, dht.QueryInput{
+				return s.Query(ctx, dht.NewAddr(c.dest), c.method, dht.QueryInput{
 					MsgArgs: krpc.MsgArgs{Target: c.marker}, NumTries: c.tries})
 			})
+			if cancelAt >= 0 {
+				r.After(cancelAt, "cancel", func() {
+					if !r.CallDone(c.call) && !c.decided {
+						c.cancelled = true
+						r.FaultHit("ctx-cancel")
+						r.Logf("cancel call %d", c.idx)
+					}
+					cancel()
+				})
+			}
 		})
 	}
 	// schedule the adversarial / genuine stream
@@ -282,7 +317,7 @@ func c07(r *Run) {
 			send(cands[r.Rng.Intn(len(cands))], kind)
 		})
 	}
-	completedByReply, timedOut := 0, 0
+	completedByReply, timedOut, cancelledCalls := 0, 0, 0
 	r.OnQuiescent = func() {
 		r.CheckPanics("panic")
 		if r.Failed() {
@@ -311,6 +346,28 @@ func c07(r *Run) {
 					r.Violate("reply-completed-two-queries", "the datagram with marker %q was returned by %d calls", got, returned[got])
 					return
 				}
+			}
+			if c.cancelled {
+				// its context was cancelled while nothing had matched it: it may return the
+				// context error (or, if a matching reply slipped in first, that reply), never
+				// another query's datagram
+				if got != "" {
+					ok := false
+					for _, dg := range delivered {
+						if dg.marker == got && dg.src == c.dest.String() && dg.t == c.t {
+							ok = true
+						}
+					}
+					if !ok {
+						r.Violate("query-completed-by-foreign-datagram", "cancelled call %d (dest %s, t=%x) returned marker %q, which no datagram from that address with that t carried", c.idx, c.dest, c.t, got)
+						return
+					}
+				} else if res.Err == nil {
+					r.Violate("cancelled-query-returned-nothing", "cancelled call %d returned neither a reply nor an error", c.idx)
+					return
+				}
+				cancelledCalls++
+				continue
 			}
 			if c.decided {
 				if got != c.expect {
@@ -365,7 +422,7 @@ func c07(r *Run) {
 	}
 	sort.Strings(ks)
 	r.State(fmt.Sprintf("c%d r%d t%d", ncalls, completedByReply, timedOut))
-	if ncalls >= 2 && ndg >= 3 && completedByReply+timedOut == ncalls {
+	if ncalls >= 2 && ndg >= 3 && completedByReply+timedOut+cancelledCalls == ncalls {
 		r.NonTrivial = true
 	}
 }
